@@ -149,6 +149,7 @@ structure Ph (u ut : Option Nat) (c : Conn) : Prop where
   e6 : LateC c → NoH u isF c ∧ NoTM ut c ∧ NoH u isT c ∧ NoH u isS c ∧ ¬OpenPre c
   e7 : c.state = .disconnected → c.sm.enabled = false
   frp : c.state = .connected → c.pst = .fresh → c.resetParser = false
+  userT : ∀ t ∈ c.timed, t.user = true → t.fn ≠ .missingFeatures
 
 /-- mechanism bookkeeping -/
 structure Me (u ut : Option Nat) (c : Conn) : Prop where
@@ -174,7 +175,7 @@ structure Inv (u ut : Option Nat) (c : Conn) : Prop where
 structure Mono (c c' : Conn) : Prop where
   hs : ∀ h' ∈ c'.handlers, ∃ h ∈ c.handlers, h'.fn = h.fn ∧ h'.uid = h.uid ∧ h'.ud = h.ud ∧ h'.user = h.user
   ids : ∀ h' ∈ c'.idHandlers, ∃ h ∈ c.idHandlers, h'.fn = h.fn ∧ h'.user = h.user
-  tm : ∀ t' ∈ c'.timed, ∃ t ∈ c.timed, t'.fn = t.fn ∧ t'.uid = t.uid
+  tm : ∀ t' ∈ c'.timed, ∃ t ∈ c.timed, t'.fn = t.fn ∧ t'.uid = t.uid ∧ t'.user = t.user
   smq : ∀ e ∈ c'.sm.queue, e ∈ c.sm.queue
   cfg : same_cfg[c, c']
   tls : same_tls[c, c']
@@ -190,9 +191,9 @@ theorem NoH.mono {u : Option Nat} {p : HFun → Bool} {c c' : Conn} (h : NoH u p
   rw [e2]; exact h x hx (by rw [← e1]; exact hp)
 
 theorem NoTM.mono {ut : Option Nat} {c c' : Conn} (h : NoTM ut c)
-    (tm : ∀ t' ∈ c'.timed, ∃ t ∈ c.timed, t'.fn = t.fn ∧ t'.uid = t.uid) : NoTM ut c' := by
+    (tm : ∀ t' ∈ c'.timed, ∃ t ∈ c.timed, t'.fn = t.fn ∧ t'.uid = t.uid ∧ t'.user = t.user) : NoTM ut c' := by
   intro t' hm hp
-  obtain ⟨x, hx, e1, e2⟩ := tm t' hm
+  obtain ⟨x, hx, e1, e2, _⟩ := tm t' hm
   rw [e2]; exact h x hx (by rw [← e1]; exact hp)
 
 theorem LateC.mono {c c' : Conn} (m : Mono c c') (h : LateC c') : LateC c := by
@@ -243,7 +244,7 @@ theorem G.mono {u : Option Nat} {c c' : Conn} (m : Mono c c') (io : c'.queue = c
     · exact .inr (s.same t1 m1 t2 t3)
 
 theorem Ph.mono {u ut : Option Nat} {c c' : Conn} (m : Mono c c') (h : Ph u ut c) : Ph u ut c' := by
-  refine ⟨?_, ?_, ?_, ?_, ?_, ?_, ?_, ?_⟩
+  refine ⟨?_, ?_, ?_, ?_, ?_, ?_, ?_, ?_, ?_⟩
   · intro x hx
     obtain ⟨y, hy, e1, _⟩ := m.ids x hx
     rw [e1]; exact h.idFn y hy
@@ -254,8 +255,8 @@ theorem Ph.mono {u ut : Option Nat} {c c' : Conn} (m : Mono c c') (h : Ph u ut c
     exact h.uniqS y hy y2 hy2 (by rw [← e1]; exact p1) (by rw [← f1]; exact p2) (by rw [← e2]; exact n1)
       (by rw [← f2]; exact n2)
   · intro x hx x2 hx2 p1 p2
-    obtain ⟨y, hy, e1, e2⟩ := m.tm x hx
-    obtain ⟨y2, hy2, f1, f2⟩ := m.tm x2 hx2
+    obtain ⟨y, hy, e1, e2, _⟩ := m.tm x hx
+    obtain ⟨y2, hy2, f1, f2, _⟩ := m.tm x2 hx2
     rw [e2, f2]; exact h.uniqTM y hy y2 hy2 (by rw [← e1]; exact p1) (by rw [← f1]; exact p2)
   · rcases h.excl with ⟨a, b⟩ | ⟨⟨a, a'⟩, b⟩ | ⟨⟨a, a'⟩, b⟩
     · exact .inl ⟨a.mono m.hs, b.mono m.hs⟩
@@ -269,6 +270,9 @@ theorem Ph.mono {u ut : Option Nat} {c c' : Conn} (m : Mono c c') (h : Ph u ut c
     exact ⟨a.mono m.hs, b.mono m.tm, d.mono m.hs, e.mono m.hs, by unfold OpenPre at *; rw [m.oh]; exact o⟩
   · rw [m.tls.1, m.en]; exact h.e7
   · rw [m.tls.1, m.p.1, m.p.2]; exact h.frp
+  · intro x hx hu
+    obtain ⟨y, hy, e1, _, e3⟩ := m.tm x hx
+    rw [e1]; exact h.userT y hy (by rw [← e3]; exact hu)
 
 theorem Me.mono {u ut : Option Nat} {c c' : Conn} (m : Mono c c') (sasl : c'.saslSupport = c.saslSupport)
     (off : c'.g.offeredMechs = c.g.offeredMechs) (h : Me u ut c) : Me u ut c' := by
@@ -309,7 +313,7 @@ def SameAll (c c' : Conn) : Prop :=
 theorem Mono.of_same {c c' : Conn} (s : SameAll c c') : Mono c c' := by
   obtain ⟨a1, a2, a3, a4, a5, a6, a7, a8, a9, a10, a11, a12⟩ := s
   exact ⟨fun h hm => ⟨h, a1 ▸ hm, rfl, rfl, rfl, rfl⟩, fun h hm => ⟨h, a2 ▸ hm, rfl, rfl⟩,
-    fun t hm => ⟨t, a3 ▸ hm, rfl, rfl⟩, fun e he => a4 ▸ he, a5, a6, a8, a9, a10⟩
+    fun t hm => ⟨t, a3 ▸ hm, rfl, rfl, rfl⟩, fun e he => a4 ▸ he, a5, a6, a8, a9, a10⟩
 
 theorem Inv.same {u ut : Option Nat} {c c' : Conn} (h : Inv u ut c) (s : SameAll c c') : Inv u ut c' :=
   h.mono (Mono.of_same s) s.2.2.2.2.2.2.1 s.2.2.2.2.2.2.2.2.2.2.1 s.2.2.2.2.2.2.2.2.2.2.2
@@ -360,7 +364,7 @@ theorem Inv_addHandler {u ut : Option Nat} {c : Conn} (h : Inv u ut c) (fn : HFu
     fun p hp n => NoH_addHandler n hp
   refine ⟨⟨by simpa using h.g.nc, ?_, by simpa using h.g.userI, ?_, ?_, by simpa using h.g.q1, ?_, ?_⟩,
     ⟨by simpa using h.ph.idFn, ?_, by simpa using h.ph.uniqTM, ?_, ?_, ?_, by simpa using h.ph.e7,
-      by simpa using h.ph.frp⟩, ⟨?_, ?_, by simpa [KMask] using h.me.k⟩,
+      by simpa using h.ph.frp, by simpa using h.ph.userT⟩, ⟨?_, ?_, by simpa [KMask] using h.me.k⟩,
     ⟨by simpa using h.el.txN, by simpa [FlagsNow] using h.el.qN, by simpa using h.el.smN⟩⟩
   · intro x hx hxu
     rcases mem_addHandler hx with hx | ⟨hx, _⟩
@@ -496,7 +500,7 @@ theorem Inv_addIdHandler {u ut : Option Nat} {c : Conn} (h : Inv u ut c) (fn : H
   refine ⟨⟨by simpa using h.g.nc, by simpa using h.g.userH, ?_, by simpa using h.g.ud0, by simpa using h.g.uniq,
       by simpa using h.g.q1, fun hsec => nh _ (h.g.noT (by simpa using hsec)), ?_⟩,
     ⟨?_, by simpa using h.ph.uniqS, by simpa using h.ph.uniqTM, ?_, ?_, ?_, by simpa using h.ph.e7,
-      by simpa using h.ph.frp⟩, ⟨?_, ?_, by simpa [KMask] using h.me.k⟩,
+      by simpa using h.ph.frp, by simpa using h.ph.userT⟩, ⟨?_, ?_, by simpa [KMask] using h.me.k⟩,
     ⟨by simpa using h.el.txN, by simpa [FlagsNow] using h.el.qN, by simpa using h.el.smN⟩⟩
   · intro x hx hxu
     rcases mem_addIdHandler hx with hx | ⟨hx, hx2⟩
@@ -535,7 +539,7 @@ theorem Inv_addIdHandler {u ut : Option Nat} {c : Conn} (h : Inv u ut c) (fn : H
     · exact .inr (by simpa using fun x => hnt (n x))
 
 theorem Inv_addTimed {u ut : Option Nat} {c : Conn} (h : Inv u ut c) (fn : TFun) (p : Nat) (us : Bool)
-    (hTM : fn = .missingFeatures → NoH u isT c ∧ NoH u isS c ∧ ¬Fr c ∧ ¬LateC c ∧ (c.state ≠ .disconnected → NT c)) :
+    (hTM : fn = .missingFeatures → us = false ∧ NoH u isT c ∧ NoH u isS c ∧ ¬Fr c ∧ ¬LateC c ∧ (c.state ≠ .disconnected → NT c)) :
     Inv u ut (addTimed c fn p us) := by
   have nh : ∀ p', NoH u p' c → NoH u p' (addTimed c fn p us) := fun p' n => by unfold NoH at *; simpa using n
   have ntm : fn ≠ .missingFeatures → NoTM ut c → NoTM ut (addTimed c fn p us) := by
@@ -549,13 +553,13 @@ theorem Inv_addTimed {u ut : Option Nat} {c : Conn} (h : Inv u ut c) (fn : TFun)
   refine ⟨⟨by simpa using h.g.nc, by simpa using h.g.userH, by simpa using h.g.userI, by simpa using h.g.ud0,
       by simpa using h.g.uniq, by simpa using h.g.q1, fun hsec => nh _ (h.g.noT (by simpa using hsec)), ?_⟩,
     ⟨by simpa using h.ph.idFn, by simpa using h.ph.uniqS, ?_, ?_, ?_, ?_, by simpa using h.ph.e7,
-      by simpa using h.ph.frp⟩, ⟨?_, ?_, by simpa [KMask] using h.me.k⟩,
+      by simpa using h.ph.frp, ?_⟩, ⟨?_, ?_, by simpa [KMask] using h.me.k⟩,
     ⟨by simpa using h.el.txN, by simpa [FlagsNow] using h.el.qN, by simpa using h.el.smN⟩⟩
   · rcases h.g.gated with n | s
     · exact .inl (by unfold NotGated at *; simpa using n)
     · exact .inr (s.same (by simp) (by simp) (by simp) (by simp))
   · intro t1 h1 t2 h2 f1 f2
-    rcases mem_addTimed h1 with h1 | ⟨h1, u1, hn⟩ <;> rcases mem_addTimed h2 with h2 | ⟨h2, u2, hn'⟩
+    rcases mem_addTimed h1 with h1 | ⟨h1, u1, _, hn⟩ <;> rcases mem_addTimed h2 with h2 | ⟨h2, u2, _, hn'⟩
     · exact h.ph.uniqTM t1 h1 t2 h2 f1 f2
     · rw [List.any_eq_false] at hn'
       exact absurd (by simp [f1, ← h2, f2]) (hn' t1 h1)
@@ -563,7 +567,7 @@ theorem Inv_addTimed {u ut : Option Nat} {c : Conn} (h : Inv u ut c) (fn : TFun)
       exact absurd (by simp [f2, ← h1, f1]) (hn t2 h2)
     · rw [u1, u2]
   · by_cases hf : fn = .missingFeatures
-    · obtain ⟨a, b, _⟩ := hTM hf
+    · obtain ⟨_, a, b, _⟩ := hTM hf
       exact .inl ⟨nh _ a, nh _ b⟩
     · rcases h.ph.excl with ⟨a, b⟩ | ⟨⟨a, a'⟩, b⟩ | ⟨⟨a, a'⟩, b⟩
       · exact .inl ⟨nh _ a, nh _ b⟩
@@ -571,18 +575,23 @@ theorem Inv_addTimed {u ut : Option Nat} {c : Conn} (h : Inv u ut c) (fn : TFun)
       · exact .inr (.inr ⟨⟨nh _ a, ntm hf a'⟩, nh _ b⟩)
   · intro f
     have f' := hfr f
-    have hf : fn ≠ .missingFeatures := fun e => (hTM e).2.2.1 f'
+    have hf : fn ≠ .missingFeatures := fun e => (hTM e).2.2.2.1 f'
     obtain ⟨a, b, d, e⟩ := h.ph.e5 f'
     exact ⟨nh _ a, ntm hf b, nh _ d, nh _ e⟩
   · intro l
     have l' := hlate l
-    have hf : fn ≠ .missingFeatures := fun e => (hTM e).2.2.2.1 l'
+    have hf : fn ≠ .missingFeatures := fun e => (hTM e).2.2.2.2.1 l'
     obtain ⟨a, b, d, e, o⟩ := h.ph.e6 l'
     exact ⟨nh _ a, ntm hf b, nh _ d, nh _ e, by unfold OpenPre at *; simpa using o⟩
+  · intro t ht hu hf
+    rcases mem_addTimed ht with ht | ⟨e1, _, e3, _⟩
+    · exact h.ph.userT t ht hu hf
+    · have := (hTM (e1 ▸ hf)).1
+      rw [e3, this] at hu; cases hu
   · intro hl
     have hl' : c.state ≠ .disconnected := by simpa using hl
     by_cases hf : fn = .missingFeatures
-    · exact .inl (hnt ((hTM hf).2.2.2.2 hl'))
+    · exact .inl (hnt ((hTM hf).2.2.2.2.2 hl'))
     · rcases h.me.i1 hl' with n | ⟨a, b, d, e⟩
       · exact .inl (hnt n)
       · exact .inr ⟨nh _ a, ntm hf b, nh _ d, by unfold Fr OpenPre at *; simpa using e⟩
@@ -596,7 +605,7 @@ theorem Inv_delTimed {u ut : Option Nat} {c : Conn} (h : Inv u ut c) (fn : TFun)
     ?_, by simp, by simp, by simp, by simp, by simp, by simp⟩ (by simp)
   intro t ht
   simp only [delTimed_frame, List.mem_filter] at ht
-  exact ⟨t, ht.1, rfl, rfl⟩
+  exact ⟨t, ht.1, rfl, rfl, rfl⟩
 
 theorem Inv_resetTimed {u ut : Option Nat} {c : Conn} (h : Inv u ut c) : Inv u ut (resetTimed c) := by
   refine h.mono ⟨fun x hx => ⟨x, by simpa using hx, rfl, rfl, rfl, rfl⟩, fun x hx => ⟨x, by simpa using hx, rfl, rfl⟩,
@@ -604,7 +613,7 @@ theorem Inv_resetTimed {u ut : Option Nat} {c : Conn} (h : Inv u ut c) : Inv u u
   intro t ht
   simp only [resetTimed_frame, List.mem_map] at ht
   obtain ⟨t0, h0, rfl⟩ := ht
-  exact ⟨t0, h0, rfl, rfl⟩
+  exact ⟨t0, h0, rfl, rfl, rfl⟩
 
 theorem Inv_notify {u ut : Option Nat} {c : Conn} (h : Inv u ut c) (e : Ev) : Inv u ut (notify c e) :=
   h.same (by simp [SameAll])
@@ -612,14 +621,14 @@ theorem Inv_notify {u ut : Option Nat} {c : Conn} (h : Inv u ut c) (e : Ev) : In
 /-- removing handlers (the dispatch loops) -/
 theorem Inv_filterHandlers {u ut : Option Nat} {c : Conn} (h : Inv u ut c) (p : Handler → Bool) :
     Inv u ut { c with handlers := c.handlers.filter p } := by
-  refine h.mono ⟨?_, fun x hx => ⟨x, hx, rfl, rfl⟩, fun x hx => ⟨x, hx, rfl, rfl⟩, fun e he => he,
+  refine h.mono ⟨?_, fun x hx => ⟨x, hx, rfl, rfl⟩, fun x hx => ⟨x, hx, rfl, rfl, rfl⟩, fun e he => he,
     by simp, by simp, by simp, by simp, by simp⟩ (by simp)
   intro x hx
   exact ⟨x, (List.mem_filter.1 hx).1, rfl, rfl, rfl, rfl⟩
 
 theorem Inv_filterIdHandlers {u ut : Option Nat} {c : Conn} (h : Inv u ut c) (p : Handler → Bool) :
     Inv u ut { c with idHandlers := c.idHandlers.filter p } := by
-  refine h.mono ⟨fun x hx => ⟨x, hx, rfl, rfl, rfl, rfl⟩, ?_, fun x hx => ⟨x, hx, rfl, rfl⟩, fun e he => he,
+  refine h.mono ⟨fun x hx => ⟨x, hx, rfl, rfl, rfl, rfl⟩, ?_, fun x hx => ⟨x, hx, rfl, rfl, rfl⟩, fun e he => he,
     by simp, by simp, by simp, by simp, by simp⟩ (by simp)
   intro x hx
   exact ⟨x, (List.mem_filter.1 hx).1, rfl, rfl⟩
@@ -629,7 +638,7 @@ theorem Inv_filterTimed {u ut : Option Nat} {c : Conn} (h : Inv u ut c) (p : Tim
   refine h.mono ⟨fun x hx => ⟨x, hx, rfl, rfl, rfl, rfl⟩, fun x hx => ⟨x, hx, rfl, rfl⟩, ?_, fun e he => he,
     by simp, by simp, by simp, by simp, by simp⟩ (by simp)
   intro x hx
-  exact ⟨x, (List.mem_filter.1 hx).1, rfl, rfl⟩
+  exact ⟨x, (List.mem_filter.1 hx).1, rfl, rfl, rfl⟩
 
 /-! ### sending -/
 
@@ -639,7 +648,7 @@ theorem Inv_pushRawWith {u ut : Option Nat} {c : Conn} (h : Inv u ut c) (it : It
     Inv u ut (pushRawWith c it o s) := by
   have m : Mono c (pushRawWith c it o s) :=
     ⟨fun x hx => ⟨x, by simpa using hx, rfl, rfl, rfl, rfl⟩, fun x hx => ⟨x, by simpa using hx, rfl, rfl⟩,
-      fun x hx => ⟨x, by simpa using hx, rfl, rfl⟩, fun e he => by simpa using he,
+      fun x hx => ⟨x, by simpa using hx, rfl, rfl, rfl⟩, fun e he => by simpa using he,
       by simp, by simp, by simp, by simp, by simp⟩
   have g0 : G u { pushRawWith c it o s with queue := c.queue } := h.g.mono
     ⟨m.hs, m.ids, m.tm, m.smq, m.cfg, m.tls, m.oh, m.p, m.en⟩ rfl
@@ -691,9 +700,15 @@ theorem Inv_sendRawString' {u ut : Option Nat} {c : Conn} (h : Inv u ut c) (it :
 /-- the SASL / STARTTLS / legacy requests: past the TLS check, stream management off -/
 theorem Inv_sendStanza_neg {u ut : Option Nat} {c : Conn} (h : Inv u ut c) (it : Item)
     (h1 : it.authBearing = true → c.state = .connected → c.tlsMandatory = true → c.hasTls = true ∧ c.secured = true)
-    (he : c.sm.enabled = false) (hi : ItemOk it (curSnap c)) : Inv u ut (sendStanza c it .strophe) := by
+    (he : c.sm.enabled = false) (hi : c.state = .connected → ItemOk it (curSnap c)) :
+    Inv u ut (sendStanza c it .strophe) := by
   rw [sendStanza_eq]; split
-  · exact Inv_pushRaw h it _ h1 fun _ => ⟨by simp [ownerOf, he], hi⟩
+  · rename_i hc
+    have hc' : c.state = .connected := by
+      unfold isConnectedFor at hc
+      simp only [Bool.and_eq_true, decide_eq_true_eq] at hc
+      exact hc.1
+    exact Inv_pushRaw h it _ h1 fun _ => ⟨by simp [ownerOf, he], hi hc'⟩
   · exact h
 
 theorem Inv_connOpenStream {u ut : Option Nat} {c : Conn} (h : Inv u ut c) : Inv u ut (connOpenStream c) := by
@@ -726,7 +741,8 @@ theorem Inv_prepareReset {u ut : Option Nat} {c : Conn} (h : Inv u ut c) (oh : O
   refine ⟨⟨by simpa using h.g.nc, by simpa using h.g.userH, by simpa using h.g.userI, by simpa using h.g.ud0,
       by simpa using h.g.uniq, by simpa using h.g.q1, fun hsec => nh _ (h.g.noT (by simpa using hsec)), ?_⟩,
     ⟨by simpa using h.ph.idFn, by simpa using h.ph.uniqS, by simpa using h.ph.uniqTM,
-      .inl ⟨nh _ k3, nh _ k4⟩, fun _ => ⟨nh _ k1, ntm k2, nh _ k3, nh _ k4⟩, ?_, by simpa using h.ph.e7, ?_⟩,
+      .inl ⟨nh _ k3, nh _ k4⟩, fun _ => ⟨nh _ k1, ntm k2, nh _ k3, nh _ k4⟩, ?_, by simpa using h.ph.e7, ?_,
+      by simpa using h.ph.userT⟩,
     ⟨?_, ?_, by simpa [KMask] using h.me.k⟩,
     ⟨by simpa using h.el.txN, by simpa [FlagsNow] using h.el.qN, by simpa using h.el.smN⟩⟩
   · rcases hcase with ⟨ho, _, _⟩ | ⟨_, s⟩
@@ -774,7 +790,7 @@ theorem Inv_connDisconnect {u ut : Option Nat} {c : Conn} (h : Inv u ut c) : Inv
   refine ⟨⟨by simp, by simpa using h.g.userH, by simpa using h.g.userI, by simpa using h.g.ud0,
       by simpa using h.g.uniq, by simp, fun hsec => nh _ (h.g.noT (by simpa using hsec)), .inr (.inl (by simp))⟩,
     ⟨by simpa using h.ph.idFn, by simpa using h.ph.uniqS, by simpa using h.ph.uniqTM, ?_, ?_, ?_, fun _ => hen,
-      by simp⟩, ⟨by simp, by simp, by simpa [KMask] using h.me.k⟩,
+      by simp, by simpa using h.ph.userT⟩, ⟨by simp, by simp, by simpa [KMask] using h.me.k⟩,
     ⟨by simpa using h.el.txN, ?_, by simpa using h.el.smN⟩⟩
   · rcases h.ph.excl with ⟨a, b⟩ | ⟨⟨a, a'⟩, b⟩ | ⟨⟨a, a'⟩, b⟩
     · exact .inl ⟨nh _ a, nh _ b⟩
@@ -807,7 +823,7 @@ theorem Inv_connTlsStart {u ut : Option Nat} {c : Conn} (h : Inv u ut c) (hs : c
         · refine .inr ⟨s, fun hm => ?_⟩
           have := (g hm).2
           rw [hs] at this; cases this
-    · exact ⟨h.ph.idFn, h.ph.uniqS, h.ph.uniqTM, h.ph.excl, h.ph.e5, h.ph.e6, h.ph.e7, h.ph.frp⟩
+    · exact ⟨h.ph.idFn, h.ph.uniqS, h.ph.uniqTM, h.ph.excl, h.ph.e5, h.ph.e6, h.ph.e7, h.ph.frp, h.ph.userT⟩
     · exact ⟨h.me.i1, h.me.i2, h.me.k⟩
     · exact ⟨h.el.txN, h.el.qN, h.el.smN⟩
   unfold connTlsStart
@@ -829,7 +845,7 @@ theorem NoTM.weaken {ut : Option Nat} {c : Conn} (h : NoTM none c) : NoTM ut c :
 theorem Inv.weaken {u ut : Option Nat} {c : Conn} (h : Inv none none c) : Inv u ut c := by
   refine ⟨⟨h.g.nc, h.g.userH, h.g.userI, h.g.ud0, h.g.uniq, h.g.q1, fun hs => (h.g.noT hs).weaken, h.g.gated⟩,
     ⟨h.ph.idFn, fun x hx y hy px py _ _ => h.ph.uniqS x hx y hy px py (by simp) (by simp), h.ph.uniqTM, ?_, ?_, ?_,
-      h.ph.e7, h.ph.frp⟩, ⟨?_, ?_, h.me.k⟩, h.el⟩
+      h.ph.e7, h.ph.frp, h.ph.userT⟩, ⟨?_, ?_, h.me.k⟩, h.el⟩
   · rcases h.ph.excl with ⟨a, b⟩ | ⟨⟨a, a'⟩, b⟩ | ⟨⟨a, a'⟩, b⟩
     · exact .inl ⟨a.weaken, b.weaken⟩
     · exact .inr (.inl ⟨⟨a.weaken, a'.weaken⟩, b.weaken⟩)
@@ -861,7 +877,7 @@ theorem Inv.unexempt {ut : Option Nat} {c : Conn} (uid : Nat) (h : Inv (some uid
     simp at this hne
     exact absurd this hne
   refine ⟨⟨h'.g.nc, h'.g.userH, h'.g.userI, h'.g.ud0, h'.g.uniq, h'.g.q1, fun hs => cl _ (h'.g.noT hs), h'.g.gated⟩,
-    ⟨h'.ph.idFn, ?_, h'.ph.uniqTM, ?_, ?_, ?_, h'.ph.e7, h'.ph.frp⟩, ⟨?_, ?_, h'.me.k⟩, h'.el⟩
+    ⟨h'.ph.idFn, ?_, h'.ph.uniqTM, ?_, ?_, ?_, h'.ph.e7, h'.ph.frp, h'.ph.userT⟩, ⟨?_, ?_, h'.me.k⟩, h'.el⟩
   · intro x hx y hy px py _ _
     have nx := (List.mem_filter.1 hx).2
     have ny := (List.mem_filter.1 hy).2
@@ -896,7 +912,7 @@ theorem Inv.unexemptT {u : Option Nat} {c : Conn} (uid : Nat) (h : Inv u (some u
     have hne := (List.mem_filter.1 hx).2
     simp at this hne
     exact absurd this hne
-  refine ⟨h'.g, ⟨h'.ph.idFn, h'.ph.uniqS, h'.ph.uniqTM, ?_, ?_, ?_, h'.ph.e7, h'.ph.frp⟩, ⟨?_, h'.me.i2, h'.me.k⟩, h'.el⟩
+  refine ⟨h'.g, ⟨h'.ph.idFn, h'.ph.uniqS, h'.ph.uniqTM, ?_, ?_, ?_, h'.ph.e7, h'.ph.frp, h'.ph.userT⟩, ⟨?_, h'.me.i2, h'.me.k⟩, h'.el⟩
   · rcases h'.ph.excl with ⟨a, b⟩ | ⟨⟨a, a'⟩, b⟩ | ⟨⟨a, a'⟩, b⟩
     · exact .inl ⟨a, b⟩
     · exact .inr (.inl ⟨⟨a, cl a'⟩, b⟩)
@@ -928,7 +944,7 @@ theorem Inv_smUpdate {u ut : Option Nat} {c : Conn} (h : Inv u ut c) (s' : SmSta
       · exact .inr (.inr (.inr (.inr e)))
       · exact e
   refine ⟨⟨h.g.nc, h.g.userH, h.g.userI, h.g.ud0, h.g.uniq, h.g.q1, h.g.noT, h.g.gated⟩,
-    ⟨h.ph.idFn, h.ph.uniqS, h.ph.uniqTM, h.ph.excl, h.ph.e5, fun l => h.ph.e6 (hlate l), ?_, h.ph.frp⟩,
+    ⟨h.ph.idFn, h.ph.uniqS, h.ph.uniqTM, h.ph.excl, h.ph.e5, fun l => h.ph.e6 (hlate l), ?_, h.ph.frp, h.ph.userT⟩,
     ⟨h.me.i1, h.me.i2, h.me.k⟩, ⟨h.el.txN, h.el.qN, fun e he' => h.el.smN e (hq e he')⟩⟩
   intro hd
   cases hs : s'.enabled
@@ -942,7 +958,7 @@ theorem Inv_ghost_late {u ut : Option Nat} {c : Conn} (h : Inv u ut c) (l : Late
     Inv u ut { c with g := g' } := by
   obtain ⟨a, b, d, e, o⟩ := h.ph.e6 l
   exact ⟨⟨h.g.nc, h.g.userH, h.g.userI, h.g.ud0, h.g.uniq, h.g.q1, h.g.noT, h.g.gated⟩,
-    ⟨h.ph.idFn, h.ph.uniqS, h.ph.uniqTM, h.ph.excl, h.ph.e5, h.ph.e6, h.ph.e7, h.ph.frp⟩,
+    ⟨h.ph.idFn, h.ph.uniqS, h.ph.uniqTM, h.ph.excl, h.ph.e5, h.ph.e6, h.ph.e7, h.ph.frp, h.ph.userT⟩,
     ⟨fun _ => .inr ⟨a, b, d, fun _ => o⟩, fun _ => .inl e, h.me.k⟩, ⟨h.el.txN, h.el.qN, h.el.smN⟩⟩
 
 /-- ghost updates that leave the offers alone -/
